@@ -23,3 +23,4 @@ char* __wrap_dlerror(void) { return (char*)ir2c_dlerror(); }
 #endif
 /* the real build runs its static constructors before main */
 void ir2c_global_ctors(void) {}
+void ir2c_reset_nitro_statics(void) {}
